@@ -102,6 +102,21 @@ func Solve(f *FuncVC, opts SolveOpts) []*Verdict {
 	cancel()
 	el := time.Since(t0).Milliseconds()
 	answers := parseChecks(out)
+	if strings.Contains(out, "(error") {
+		// a malformed script is an engine bug: nothing may be concluded from this run
+		msg := out
+		if k := strings.Index(out, "(error"); k >= 0 {
+			msg = out[k:]
+			if j := strings.Index(msg, "\n"); j > 0 {
+				msg = msg[:j]
+			}
+		}
+		for _, i := range pending {
+			verdicts[i] = &Verdict{Oblig: f.Obligs[i], Status: "error", Solver: "z3-new", Output: msg}
+		}
+		os.Remove(file)
+		return verdicts
+	}
 	var retry []int
 	for k, i := range pending {
 		st := "unknown"
@@ -124,7 +139,7 @@ func Solve(f *FuncVC, opts SolveOpts) []*Verdict {
 	os.Remove(file)
 	// phase 2: individual queries raced on all solvers
 	var wg sync.WaitGroup
-	sem := make(chan struct{}, 12)
+	sem := make(chan struct{}, 5)
 	for _, i := range retry {
 		wg.Add(1)
 		go func(i int) {
@@ -139,7 +154,7 @@ func Solve(f *FuncVC, opts SolveOpts) []*Verdict {
 }
 
 func raceOne(f *FuncVC, o *Oblig, first *Verdict, opts SolveOpts) *Verdict {
-	script := f.Script([]*Oblig{o}, opts.TimeoutMs*3, false)
+	script := f.Script([]*Oblig{o}, opts.TimeoutMs*2, false)
 	file := writeScript(opts.WorkDir, sanitizeFile(f.Name)+"_one", script)
 	defer os.Remove(file)
 	type res struct {
@@ -155,7 +170,7 @@ func raceOne(f *FuncVC, o *Oblig, first *Verdict, opts SolveOpts) *Verdict {
 	for _, s := range solvers {
 		go func(s string) {
 			t0 := time.Now()
-			out, _ := runSolver(ctx, s, file, opts.TimeoutMs*3)
+			out, _ := runSolver(ctx, s, file, opts.TimeoutMs*2)
 			a := parseChecks(out)
 			st := "unknown"
 			if len(a) > 0 {
